@@ -14,14 +14,31 @@ from . import _call as K
 
 LEVEL = "proof"
 RULE = ("segment tables of 0..25 rows (classes autosome / X / Y / PAR-X / PAR-Y incl. PAR boundary coordinates +-1, "
-        "segments starting at 0, either or mixed naming style, sorted or shuffled) with a cn column (values at and "
+        "segments starting at 0, either or mixed naming style, sorted or shuffled; in 20 % of the in-memory tables also "
+        "mitochondrial / unplaced / decoy contigs) with a cn column (values at and "
         "next to the ploidy and the expected copies, 0, random) or without one (log2 of n/r for n 0..8, integer log2 "
-        "making exact .5 ties, random) x ploidy 1..6 x sample sex x reference sex x {none, grch37, grch38} through "
-        "export_bed (3 show modes, label given / empty / genes) and export_vcf (sample id given / empty / default), "
-        "parsed field by field; 1..5 segment files through export_seg (+- enumerate-chroms, a sample without probes, "
-        "duplicate sample IDs); 1..5 bin files through merge_samples + fmt_jtv / fmt_cdt (equal bins, one coordinate / "
-        "gene / chromosome / length changed, duplicate IDs, both) and export_nexus_basic; every command once or more "
-        "through the cnvkit.py CLI in a subprocess. non-trivial = non-empty input; distinct by hash of the case")
+        "making exact .5 ties, random) x ploidy 1..6 x sample sex x reference sex x {none, grch37, grch38; spelled in "
+        "lower / mixed / upper case} through "
+        "export_bed (3 show modes, label given / empty / genes, 15 % without a probes column) and export_vcf (sample id "
+        "given / empty / default; on 25 % of the sorted tables with confidence limits: a bin-level cnarr, or ci_left / "
+        "ci_right columns), parsed field by field.  REPRESENTATION of those tables (invisible to the model): as built; "
+        "30 % as a boolean-mask subset of a larger table (index labels != positions); 10 % with repeated index labels; "
+        "40 % with the other columns of a .cns (baf cn1 cn2 depth weight ci_lo ci_hi p_ttest); 40 % in the column order "
+        "`call` writes or shuffled; 25 % after the same object went through 1..2 other exporter calls; arguments "
+        "positional / keyword / trailing default left out; the sample sex as bool / numpy.bool_ / None.  "
+        "1..5 segment files through export_seg (+- enumerate-chroms given positionally / by keyword / left out, any "
+        "sample -- also the only one -- without probes, a header-only sample among others, files with the other .cns "
+        "columns, duplicate sample IDs, file names as list or tuple); 1..5 bin files through merge_samples + fmt_jtv / "
+        "fmt_cdt (equal bins, one coordinate / "
+        "gene / chromosome / length changed, duplicate IDs, both; .cnr files with or without depth / weight / gc / rmask "
+        "/ spread columns; names as list or tuple) and export_nexus_basic (subset / repeated index / extra / shuffled "
+        "columns / object reused).  COMMAND LINE (counts of the quick tier): 48 bed + 48 vcf + 16 seg + 16 jtv|cdt + 16 nexus-basic cases through "
+        "commands.parse_args + the command function in this process, and 13 through cnvkit.py in a subprocess, walking "
+        "through: each accepted spelling of the sample sex under -x / --sample-sex / -g / --gender, the sex left out, "
+        "-y / --male-reference / --haploid-x-reference, --ploidy 2 and --show ploidy left to their defaults, the genome "
+        "name in any case, -o or standard output, a second segment file before / after on export bed, -i alone / with "
+        "--label-genes, --label-genes, vcf --cnr; every command-line table carries an X and a Y segment neutral for "
+        "exactly the case's sample sex. non-trivial = non-empty input; distinct by hash of the case")
 EXHAUSTIVE = {"quick": False, "thorough": False}
 ASSUMPTIONS = [
     "ratio space: the model receives the exact value of the double 2**log2; r*t in floats is covered by the knife-edge "
@@ -30,13 +47,30 @@ ASSUMPTIONS = [
     "finite log2, so that reading them (C08's subject) is the identity; the adapter checks that on every case",
     "vcf: the table has a probes column of non-negative integers (str(probes).isdigit()); tables without it or with "
     "negative counts yield no record at all -- run as a malformed stream, model mirrors it, spec not applied",
+    "command line with the sample sex left out: the model is given the sex that guess_xx infers from the table as "
+    "read (C15's subject); the tie then covers verify_sample_sex and the option plumbing",
+    "vcf with confidence limits (cnarr / --cnr, or ci_left + ci_right columns): each record additionally carries "
+    "CIPOS and CIEND after the seven modelled INFO keys; the adapter checks that they are there and drops them, their "
+    "values are outside the property's text and the model",
 ]
 TRUSTED_EXTRA = ["pandas boolean-mask selection, Series.replace, concat, itertuples, to_csv as modelled in Model/Export.lean",
                  "harness parsing of the VCF / BED / SEG / TSV text into fields (split on tab, ';', '=', ':')",
-                 "tabio.read (tab format) on sorted finite input is the identity (checked per case by the adapter)"]
+                 "tabio.read (tab format) on sorted finite input is the identity (checked per case by the adapter)",
+                 "argparse: an option string reaches the command function as the attribute the parser declares"]
 
 GENES = ["A", "B", "C,D", "-", "G1", "TP53"]
 RESERVED = ["chromosome", "start", "end", "gene", "label"]
+# keys of a case that only steer run_impl (how the table is built / which door is used); never sent to the model
+HARNESS_KEYS = {"via", "cli_opts", "sub", "extra", "colorder", "dupidx", "pre", "argstyle", "female_repr", "ci", "cnr",
+                "ftuple"}
+SEX_MALE = ("m", "y", "male", "Male")
+SEX_FEMALE = ("f", "x", "female", "Female")
+PAR_SPELL = {"grch37": ["grch37", "GRCh37", "GRCH37"], "grch38": ["grch38", "GRCh38", "GRCH38"]}
+# columns a .cns carries besides the five required ones, probes and cn (segment / call / segmetrics output)
+SEG_EXTRA = ["baf", "cn1", "cn2", "depth", "weight", "ci_lo", "ci_hi", "p_ttest"]
+BIN_EXTRA = ["depth", "weight", "gc", "rmask", "spread"]
+ALT_CONTIGS = {"chr": ["chrM", "chrUn_KI270742v1", "chr1_KI270706v1_random", "chrEBV"],
+               "plain": ["MT", "GL000218.1", "KI270706.1", "NC_007605"]}
 
 
 class HarnessAssumption(Exception):
@@ -51,6 +85,8 @@ def _chrom_key(c):
     k = c[3:] if c.lower().startswith("chr") else c
     if k in ("X", "Y"):
         return (1000, k)
+    if not k.isdigit():
+        return (2000, c)  # alternative contigs (tables built in memory only): after the numbered ones
     return (int(k), "")
 
 
@@ -62,14 +98,21 @@ def _expected(cls, ploidy, female):
     return K.prose_copies(cls, ploidy, True, female)[1]
 
 
-def _seg_rows(rng, n, ploidy, hapx, female, style, par, has_cn, sort):
+def _seg_rows(rng, n, ploidy, hapx, female, style, par, has_cn, sort, alt=False, sentinels=False):
     """rows [chrom, s, e, gene, log2, probes, cn] as Python values"""
-    classes = ["auto", "auto", "auto", "x", "y"] + (["parx", "pary"] if par else [])
+    classes = ["auto", "auto", "auto", "x", "y"] + (["parx", "pary"] if par else []) + (["alt"] if alt else [])
     rows = []
     for _ in range(n):
         cls = rng.choice(classes)
         st = style if style != "mixed" else rng.choice(["chr", "plain"])
-        c, s, e = K.make_row(rng, cls, st, par)
+        if cls == "alt":
+            # mitochondrion / unplaced / decoy contigs: autosome-like for every exporter
+            cls = "auto"
+            c, s, e = K.make_row(rng, cls, st, par)
+            c = rng.choice(ALT_CONTIGS[st])
+            s, e = s % 16000, s % 16000 + 1 + (e - s) % 500
+        else:
+            c, s, e = K.make_row(rng, cls, st, par)
         if cls == "auto" and rng.random() < 0.25:
             e, s = e - s, 0  # a segment starting at 0
         if cls in ("x", "y") and par is None and rng.random() < 0.2:
@@ -90,6 +133,16 @@ def _seg_rows(rng, n, ploidy, hapx, female, style, par, has_cn, sort):
             lg = round(lg, 3)
         cn = rng.choice([exp, exp, ploidy, exp + 1, max(0, exp - 1), 0, rng.randint(0, 9)])
         rows.append([c, s, e, rng.choice(GENES), lg, rng.randint(1, 500), cn])
+    if sentinels:
+        # an X and a Y segment that are neutral for exactly the sample sex of the case: with the other sex they
+        # would be listed / reported, so a command line that gets the sex wrong cannot go unnoticed
+        for st in (["chr", "plain"] if style == "mixed" else [style]):
+            for cls in ("x", "y"):
+                c, s, e = K.make_row(rng, cls, st, par)
+                exp = _expected(cls, ploidy, female)
+                ref = ploidy // 2 if (cls == "y" or hapx) else ploidy
+                lg = math.log2(exp / ref) if (ref > 0 and exp > 0) else -20.0
+                rows.append([c, s, e, "sentinel", round(lg, 3) if sort == "cli" else lg, rng.randint(1, 500), exp])
     if sort in ("sorted", "cli"):
         rows = _sorted(rows)
     return rows
@@ -99,8 +152,62 @@ def _enc_seg(r):
     return [r[0], r[1], r[2], r[3], frac(r[4]), frac(2.0 ** r[4]), r[5], r[6]]
 
 
-def _segcase(rng, op, via=None, nmax=25, force=None):
+def _cnr_bins(rng, rows):
+    """bins of a .cnr lying inside the (sorted) segments, 0..3 per segment, at least one in all"""
+    bins = []
+    for r in rows:
+        c, s, e = r[0], r[1], r[2]
+        k = min(rng.choice([0, 1, 2, 3]), e - s)
+        cuts = sorted(rng.sample(range(s + 1, e), k - 1)) if k > 1 else []
+        for a, b in zip([s] + cuts, cuts + [e]) if k else []:
+            bins.append([c, a, b])
+    if not bins:
+        bins.append([rows[0][0], rows[0][1], rows[0][2]])
+    return [list(b) for b in sorted({tuple(b) for b in bins}, key=lambda b: (_chrom_key(b[0]), b[1], b[2]))]
+
+
+def _table_repr(rng, i, n, files):
+    """how the table reaches the exporter (none of this is visible to the model): a filtered SUBSET of a larger
+    table (index labels != positions), repeated index labels, the other columns a .cns carries, their order"""
+    if rng.random() < 0.4:
+        i["extra"] = rng.sample(SEG_EXTRA, rng.randint(1, len(SEG_EXTRA)))
+    if rng.random() < 0.4:
+        i["colorder"] = "call" if (files or rng.random() < 0.5) else rng.randrange(10 ** 6)
+    if files or n == 0:
+        return
+    k = rng.random()
+    if k < 0.3:
+        i["sub"] = rng.randrange(10 ** 6)
+    elif k < 0.4 and n > 1:
+        i["dupidx"] = True
+
+
+def _cli_opts(rng, i, op, turn):
+    """how the options are spelled on the command line; `turn` (the running number of the case) walks through the
+    cells so that each one is reached whatever the seed"""
+    o = {}
+    if turn % 3 == 0:
+        o["sex"] = (SEX_FEMALE if i["female"] else SEX_MALE)[(turn // 3) % 4]
+        o["sex_flag"] = ["-x", "--sample-sex", "-g", "--gender"][(turn // 12) % 4]
+    elif turn % 3 == 1:
+        o["sex"] = None  # left out: inferred from the table (guess_xx, C15's subject; see ASSUMPTIONS)
+    if i["hapX"]:
+        o["hapx_flag"] = rng.choice(["-y", "--male-reference", "--haploid-x-reference"])
+    o["implicit"] = turn % 5 != 4  # --ploidy 2 / --show ploidy left to their defaults where they apply
+    o["stdout"] = turn % 4 == 1
+    if i["par"]:
+        i["par_f"] = rng.choice(PAR_SPELL[i["par"]])
+    if op == "export_bed":
+        if i["label"] is None and turn % 2 == 0:
+            o["co"] = (turn // 2) % 2  # a second segment file on the same command line, before / after
+        if i["label"] not in (None, "@genes") and turn % 2 == 0:
+            o["label_genes_too"] = True  # -i wins over --label-genes
+    return o
+
+
+def _segcase(rng, op, via=None, nmax=25, force=None, turn=None):
     force = force or {}
+    plain = force.get("plain", False)
     ploidy = force.get("ploidy", rng.randint(1, 6))
     hapx = force.get("hapX", rng.random() < 0.5)
     female = force.get("female", rng.random() < 0.5)
@@ -111,17 +218,44 @@ def _segcase(rng, op, via=None, nmax=25, force=None):
     if via:
         n = max(n, 1)
     sort = "cli" if via else rng.choice(["sorted", "sorted", "shuffled"])
-    rows = _seg_rows(rng, n, ploidy, hapx, female, style, par, has_cn, sort)
+    alt = (not via) and (not plain) and rng.random() < 0.2
+    rows = _seg_rows(rng, n, ploidy, hapx, female, style, par, has_cn, sort, alt, sentinels=bool(via) and not plain)
     i = {"rows": [_enc_seg(r) for r in rows], "log2_f": [r[4] for r in rows], "ploidy": ploidy, "hapX": hapx,
          "female": female, "par": par, "has_cn": has_cn, "has_probes": True, "seg_id": "S"}
     if op == "export_bed":
-        i["label"] = rng.choice([None, "", "lab", "tumor-1"]) if not via else rng.choice([None, "lab", "@genes"])
+        i["label"] = rng.choice([None, "", "lab", "tumor-1"]) if not via else rng.choice([None, None, "lab", "@genes"])
+        i["label"] = force.get("label", i["label"])
         i["show"] = force.get("show", rng.choice(["all", "ploidy", "variant", "variant"]))
+        if not plain and rng.random() < 0.15:
+            i["has_probes"] = False  # a .cns without probe counts: nothing export bed needs
     else:
         i["sample_id"] = rng.choice([None, "", "TUMOR"]) if not via else rng.choice([None, "TUMOR"])
+    rep = ""
+    if not plain:
+        _table_repr(rng, i, n, files=bool(via))
+        if op == "export_vcf" and n > 0 and sort != "shuffled":
+            k = rng.random()
+            if k < 0.15:
+                i["cnr"] = _cnr_bins(rng, rows)  # bin-level file given: CIPOS / CIEND are added to each record
+            elif k < 0.25:
+                i["ci"] = True  # the segment table itself carries ci_left / ci_right
+        if not via:
+            # the same object handed to other exporters first; how the arguments are passed
+            if rng.random() < 0.25:
+                i["pre"] = [rng.choice(["vcf", "bed:all", "bed:ploidy", "bed:variant"]) for _ in range(rng.randint(1, 2))]
+            i["argstyle"] = rng.choice(["pos", "pos", "kw", "implicit"])
+            i["female_repr"] = rng.choice(["bool", "bool", "np", "none"])
+            if par and rng.random() < 0.3:
+                i["par_f"] = rng.choice(PAR_SPELL[par])
+        rep = "".join("+" + k for k in ("sub", "dupidx", "extra", "colorder", "cnr", "ci", "pre") if i.get(k) is not None)
     if via:
         i["via"] = via
-    tag = f"{'cli-' if via else ''}{i.get('show', 'vcf')}-{'cn' if has_cn else 'log2'}"
+        if not plain:
+            i["cli_opts"] = _cli_opts(rng, i, op, rng.randrange(60) if turn is None else turn)
+            rep += "".join("+" + k for k, v in i["cli_opts"].items() if k in ("co", "stdout") and v not in (None, False))
+            if "sex" in i["cli_opts"]:
+                rep += "+sexspelt" if i["cli_opts"]["sex"] else "+nosex"
+    tag = f"{via + '-' if via else ''}{i.get('show', 'vcf')}-{'cn' if has_cn else 'log2'}{rep}"
     return {"op": op, "tag": tag, "in": i}
 
 
@@ -151,22 +285,35 @@ def _segfile_case(rng, via=None):
         pool = [pre + str(x) for x in rng.sample(range(1, 23), rng.randint(1, 5))] + [pre + "X", pre + "Y"]
         if style == "plain" and rng.random() < 0.5:
             pool = ["1", "2", "3", "5", "X"]
+        if k > 1 and rng.random() < 0.08:
+            n = 0  # a sample without a single segment (header-only file) among the others
         rows = []
         for _ in range(n):
             s = rng.choice([0, 0, rng.randint(0, 10 ** 7)])
             lg = rng.uniform(-3, 2)
             if via:
                 lg = round(lg, 3)
-            rows.append([rng.choice(pool), s, s + rng.randint(1, 10 ** 6), "-", lg, rng.randint(1, 300), 2])
+            rows.append([rng.choice(pool), s, s + rng.randint(1, 10 ** 6), rng.choice(GENES), lg, rng.randint(1, 300),
+                         rng.randint(0, 5)])
         rows = _sorted(rows)
-        samples.append({"id": ids[j], "has_probes": not (k > 1 and rng.random() < 0.1),
-                        "rows": [_enc_seg(r) for r in rows], "log2_f": [r[4] for r in rows]})
+        sm = {"id": ids[j], "has_probes": rng.random() >= 0.12,
+              "rows": [_enc_seg(r) for r in rows], "log2_f": [r[4] for r in rows]}
+        if rng.random() < 0.5:
+            # the other columns of a called / annotated .cns (none of them is exported)
+            sm["extra"] = rng.sample(["cn"] + SEG_EXTRA, rng.randint(1, 5))
+        samples.append(sm)
     i = {"samples": samples, "enumerate": rng.random() < 0.4}
     if via:
         i["via"] = via
+        i["cli_opts"] = {"stdout": rng.random() < 0.3}
+    else:
+        i["argstyle"] = rng.choice(["pos", "kw", "implicit"])  # implicit: chrom_ids left to its default when False
+        i["ftuple"] = rng.random() < 0.3
     dup = len(set(ids)) < len(ids)
-    return {"op": "export_seg", "tag": ("cli-" if via else "") + ("enum" if i["enumerate"] else "plain") + ("-dupid" if dup else ""),
-            "in": i}
+    feat = ("-dupid" if dup else "") + ("-emptysample" if any(not sm["rows"] for sm in samples) else "") + \
+           ("-noprobes" if any(not sm["has_probes"] for sm in samples) else "") + \
+           ("-extra" if any(sm.get("extra") for sm in samples) else "")
+    return {"op": "export_seg", "tag": (via + "-" if via else "") + ("enum" if i["enumerate"] else "plain") + feat, "in": i}
 
 
 def _bins(rng, n, style, via):
@@ -233,20 +380,39 @@ def _tablecase(rng, via=None, kind=None):
                 else:
                     bins[t][3] = bins[t][3] + "x"
         bins = _sorted(bins)
-        samples.append({"id": ids[j], "bins": [[b[0], b[1], b[2], b[3], frac(b[4])] for b in bins],
-                        "log2_f": [b[4] for b in bins]})
+        sm = {"id": ids[j], "bins": [[b[0], b[1], b[2], b[3], frac(b[4])] for b in bins], "log2_f": [b[4] for b in bins]}
+        if rng.random() < 0.5:
+            sm["extra"] = rng.sample(BIN_EXTRA, rng.randint(1, len(BIN_EXTRA)))  # a .cnr as `fix` writes it
+        samples.append(sm)
     i = {"samples": samples, "fmt": rng.choice(["jtv", "cdt"])}
     if via:
         i["via"] = via
-    return {"op": "export_table", "tag": ("cli-" if via else "") + i["fmt"] + "-" + kind + (("-" + how) if how else ""), "in": i}
+        i["cli_opts"] = {"stdout": rng.random() < 0.3}
+    else:
+        i["ftuple"] = rng.random() < 0.3
+    return {"op": "export_table", "tag": (via + "-" if via else "") + i["fmt"] + "-" + kind + (("-" + how) if how else ""), "in": i}
 
 
 def _nexuscase(rng, via=None):
     bins = _sorted(_bins(rng, rng.randint(1, 14), rng.choice(["chr", "plain"]), via))
     i = {"bins": [[b[0], b[1], b[2], b[3], frac(b[4])] for b in bins], "log2_f": [b[4] for b in bins]}
+    if rng.random() < 0.5:
+        i["extra"] = rng.sample(BIN_EXTRA, rng.randint(1, len(BIN_EXTRA)))
     if via:
         i["via"] = via
-    return {"op": "export_nexus_basic", "tag": ("cli-" if via else "") + "nexus", "in": i}
+        i["cli_opts"] = {"stdout": rng.random() < 0.3}
+    else:
+        k = rng.random()
+        if k < 0.4:
+            i["sub"] = rng.randrange(10 ** 6)
+        elif k < 0.55 and len(bins) > 1:
+            i["dupidx"] = True
+        if rng.random() < 0.3:
+            i["colorder"] = rng.randrange(10 ** 6)
+        if rng.random() < 0.2:
+            i["pre"] = ["nexus"]
+    rep = "".join("+" + k for k in ("sub", "dupidx", "extra", "colorder", "pre") if i.get(k) is not None)
+    return {"op": "export_nexus_basic", "tag": (via + "-" if via else "") + "nexus" + rep, "in": i}
 
 
 def corpus():
@@ -255,7 +421,7 @@ def corpus():
     out = []
     # half-even ties without a cn column: ploidy 1/3/5 and log2 = -1 give r*t = 0.5, 1.5, 2.5
     for ploidy in (1, 3, 5):
-        c = _segcase(rng, "export_bed", force={"ploidy": ploidy, "has_cn": False, "par": None, "show": "all"})
+        c = _segcase(rng, "export_bed", force={"ploidy": ploidy, "has_cn": False, "par": None, "show": "all", "plain": True})
         rows = [["chr1", 0, 100, "A", -1.0, 5, 0], ["chrX", 0, 50, "B", -1.0, 3, 0], ["chrY", 10, 20, "-", 0.0, 1, 0]]
         c["in"]["rows"] = [_enc_seg(r) for r in rows]
         c["in"]["log2_f"] = [r[4] for r in rows]
@@ -324,17 +490,39 @@ def gen_cases(rng, tier):
     for _ in range(m // 3):
         cases.append(_nexuscase(rng))
         cases.append(_malformed_vcf(rng))
-    # the command line, end to end
+    # the command line: same parser and command functions in this process (cheap, so every spelling of every option
+    # gets its turn) ...
+    a = {"quick": 48, "thorough": 240, "search": 48}[tier]
+    for t in range(a):
+        f = {"show": "ploidy"} if t % 5 == 2 else ({"show": "variant"} if t % 3 != 2 else {})
+        if t % 3 == 0:
+            f["label"] = "lab"
+        cases.append(_segcase(rng, "export_bed", via="argv", nmax=12, force=f, turn=t))
+        cases.append(_segcase(rng, "export_vcf", via="argv", nmax=12, turn=t + 1))
+    for _ in range(a // 3):
+        cases.append(_segfile_case(rng, via="argv"))
+        cases.append(_tablecase(rng, via="argv"))
+        cases.append(_nexuscase(rng, via="argv"))
+    # ... and end to end through cnvkit.py in a subprocess (2 s each: spread over the list so that the worker
+    # processes share them)
     k = {"quick": 1, "thorough": 4, "search": 0}[tier]
+    slow = []
     for _ in range(k):
         for show in ("all", "ploidy", "variant"):
-            cases.append(_segcase(rng, "export_bed", via="cli", nmax=10, force={"show": show}))
-        cases.append(_segcase(rng, "export_vcf", via="cli", nmax=10, force={"has_cn": True}))
-        cases.append(_segcase(rng, "export_vcf", via="cli", nmax=10, force={"has_cn": False}))
-        cases.append(_segfile_case(rng, via="cli"))
-        cases.append(_tablecase(rng, via="cli", kind="equal"))
-        cases.append(_tablecase(rng, via="cli", kind="mismatch"))
-        cases.append(_nexuscase(rng, via="cli"))
+            slow.append(_segcase(rng, "export_bed", via="cli", nmax=10, force={"show": show}))
+        slow.append(_segcase(rng, "export_bed", via="cli", nmax=10))
+        slow.append(_segcase(rng, "export_vcf", via="cli", nmax=10, force={"has_cn": True}))
+        slow.append(_segcase(rng, "export_vcf", via="cli", nmax=10, force={"has_cn": False}))
+        slow.append(_segcase(rng, "export_vcf", via="cli", nmax=10))
+        slow.append(_segfile_case(rng, via="cli"))
+        slow.append(_segfile_case(rng, via="cli"))
+        slow.append(_tablecase(rng, via="cli", kind="equal"))
+        slow.append(_tablecase(rng, via="cli", kind="mismatch"))
+        slow.append(_tablecase(rng, via="cli", kind="dupid"))
+        slow.append(_nexuscase(rng, via="cli"))
+    step = max(1, len(cases) // (len(slow) + 1))
+    for j, c in enumerate(slow):
+        cases.insert(min(len(cases), (j + 1) * step + j), c)
     return cases
 
 
@@ -361,22 +549,113 @@ def _cell(v):
     return ["s", str(v)]
 
 
+def _extra_value(name, k, r, lg):
+    """a plausible value of one of the columns the exporters do not read (row k of the table)"""
+    s, e = r[1], r[2]
+    return {"baf": float("nan") if k % 4 == 3 else 0.3 + (k % 5) / 20.0, "cn1": k % 3, "cn2": k % 2,
+            "depth": 1.0 + 0.5 * k, "weight": 0.25 + (k % 7) / 10.0, "ci_lo": lg - 0.125, "ci_hi": lg + 0.125,
+            "p_ttest": 0.5, "gc": 0.4 + (k % 3) / 10.0, "rmask": 0.125, "spread": 0.25 + (k % 4) / 8.0,
+            "cn": 7 + k % 3,
+            "ci_left": s + min(3 + k, (e - s) // 3), "ci_right": e - min(2 + k, (e - s) // 3)}[name]
+
+
+def _order_cols(cols, colorder):
+    if colorder is None:
+        return list(cols)
+    if colorder == "call":
+        # the order `call` / `segment` write: ... log2, baf, cn, cn1, cn2, depth, probes, weight, the rest
+        lead = ["chromosome", "start", "end", "gene", "log2", "baf", "cn", "cn1", "cn2", "depth", "probes", "weight"]
+        return [c for c in lead if c in cols] + [c for c in cols if c not in lead]
+    import random
+    perm = list(cols)
+    random.Random(colorder).shuffle(perm)
+    return perm
+
+
+def _seg_table(rows, log2s, has_cn, has_probes, extra=None, colorder=None, ci=False):
+    """(column names, rows) of a segment table: the five required columns, probes / cn when the case has them,
+    then whatever else the case asks for, in the order it asks for"""
+    cols = ["chromosome", "start", "end", "gene", "log2"] + (["probes"] if has_probes else []) + (["cn"] if has_cn else [])
+    more = [c for c in (extra or []) if c not in cols] + (["ci_left", "ci_right"] if ci else [])
+    data = []
+    for k, (r, lg) in enumerate(zip(rows, log2s)):
+        row = {"chromosome": r[0], "start": r[1], "end": r[2], "gene": r[3], "log2": lg, "probes": r[6], "cn": r[7]}
+        for name in more:
+            row[name] = _extra_value(name, k, r, lg)
+        data.append(row)
+    order = _order_cols(cols + more, colorder)
+    return order, [[row[c] for c in order] for row in data]
+
+
+def _subset_of_larger(cls, cols, data, seed, meta, junk):
+    """the table as a boolean-mask SUBSET of a larger one: index labels differ from row positions"""
+    import random
+    import numpy as np
+    rng = random.Random(seed)
+    big, mask = [], []
+    for row in data:
+        for _ in range(rng.choice([0, 1, 1, 2, 3])):
+            big.append(junk(list(rng.choice(data)), rng))
+            mask.append(False)
+        big.append(row)
+        mask.append(True)
+    if all(mask):
+        big.insert(0, junk(list(data[-1]), rng))
+        mask.insert(0, False)
+    return cls.from_rows([tuple(x) for x in big], columns=cols, meta_dict=meta)[np.array(mask)]
+
+
+def _dup_index(cls, arr, meta):
+    """index labels repeat, as after pd.concat without ignore_index"""
+    import pandas as pd
+    d = arr.data.copy()
+    d.index = pd.Index([k % max(1, len(d) // 2) for k in range(len(d))])
+    return cls(d, dict(meta))
+
+
 def _seg_cna(i, rows, log2s, has_cn, has_probes, sid="S"):
     from cnvlib.cnary import CopyNumArray as CNA
-    cols = ["chromosome", "start", "end", "gene", "log2"]
+    cols, data = _seg_table(rows, log2s, has_cn, has_probes, i.get("extra"), i.get("colorder"), bool(i.get("ci")))
+    meta = {"sample_id": sid}
+    if i.get("sub") is not None and data:
+        def junk(row, rng):
+            for name, v in (("gene", "junk"), ("log2", 5.0 + rng.random()), ("cn", 90 + rng.randrange(9))):
+                if name in cols:
+                    row[cols.index(name)] = v
+            return row
+        arr = _subset_of_larger(CNA, cols, data, i["sub"], meta, junk)
+    else:
+        arr = CNA.from_rows([tuple(x) for x in data], columns=cols, meta_dict=meta)
+    if i.get("dupidx") and len(arr) > 1:
+        arr = _dup_index(CNA, arr, meta)
+    if len(arr) != len(rows) or [str(c) for c in arr.data["chromosome"]] != [r[0] for r in rows]:
+        raise HarnessAssumption("the table built for the case does not have the case's rows")
+    return arr
+
+
+def _bin_cna(i, bins, log2s, sid="S"):
+    from cnvlib.cnary import CopyNumArray as CNA
+    base = ["chromosome", "start", "end", "gene", "log2"]
+    more = [c for c in (i.get("extra") or []) if c not in base]
+    cols = _order_cols(base + more, i.get("colorder"))
     data = []
-    for r, lg in zip(rows, log2s):
-        row = [r[0], r[1], r[2], r[3], lg]
-        if has_probes:
-            row.append(r[6])
-        if has_cn:
-            row.append(r[7])
-        data.append(tuple(row))
-    if has_probes:
-        cols = cols + ["probes"]
-    if has_cn:
-        cols = cols + ["cn"]
-    return CNA.from_rows(data, columns=cols, meta_dict={"sample_id": sid})
+    for k, (b, lg) in enumerate(zip(bins, log2s)):
+        row = {"chromosome": b[0], "start": b[1], "end": b[2], "gene": b[3], "log2": lg}
+        for name in more:
+            row[name] = _extra_value(name, k, b, lg)
+        data.append([row[c] for c in cols])
+    meta = {"sample_id": sid}
+    if i.get("sub") is not None and data:
+        def junk(row, rng):
+            row[cols.index("gene")] = "junk"
+            row[cols.index("log2")] = 5.0 + rng.random()
+            return row
+        arr = _subset_of_larger(CNA, cols, data, i["sub"], meta, junk)
+    else:
+        arr = CNA.from_rows([tuple(x) for x in data], columns=cols, meta_dict=meta)
+    if i.get("dupidx") and len(arr) > 1:
+        arr = _dup_index(CNA, arr, meta)
+    return arr
 
 
 def _write_tab(path, cols, data):
@@ -386,17 +665,17 @@ def _write_tab(path, cols, data):
             fh.write("\t".join(repr(x) if isinstance(x, float) else str(x) for x in row) + "\n")
 
 
-def _write_segfile(path, rows, log2s, has_cn, has_probes):
-    cols = ["chromosome", "start", "end", "gene", "log2"] + (["probes"] if has_probes else []) + (["cn"] if has_cn else [])
-    data = []
-    for r, lg in zip(rows, log2s):
-        data.append([r[0], r[1], r[2], r[3], lg] + ([r[6]] if has_probes else []) + ([r[7]] if has_cn else []))
+def _write_segfile(path, rows, log2s, has_cn, has_probes, extra=None, colorder=None, ci=False):
+    cols, data = _seg_table(rows, log2s, has_cn, has_probes, extra, colorder, ci)
     _write_tab(path, cols, data)
     _check_readback(path, [(r[0], r[1], r[2]) for r in rows], log2s)
 
 
-def _write_binfile(path, bins, log2s):
-    _write_tab(path, ["chromosome", "start", "end", "gene", "log2"], [[b[0], b[1], b[2], b[3], lg] for b, lg in zip(bins, log2s)])
+def _write_binfile(path, bins, log2s, extra=None):
+    base = ["chromosome", "start", "end", "gene", "log2"]
+    more = [c for c in (extra or []) if c not in base]
+    _write_tab(path, base + more, [[b[0], b[1], b[2], b[3], lg] + [_extra_value(c, k, b, lg) for c in more]
+                                   for k, (b, lg) in enumerate(zip(bins, log2s))])
     _check_readback(path, [(b[0], b[1], b[2]) for b in bins], log2s)
 
 
@@ -410,7 +689,28 @@ def _check_readback(path, coords, log2s):
         raise HarnessAssumption("log2 read back differs")
 
 
-def _cli(args, tmp):
+class _Done:
+    def __init__(self, returncode, stdout, stderr):
+        self.returncode, self.stdout, self.stderr = returncode, stdout, stderr
+
+
+def _cli(args, tmp, via="cli"):
+    """`cnvkit.py <args>`: in a subprocess (via == "cli"), or -- same parser, same command functions, without the
+    2 s of interpreter start -- in this process (via == "argv")"""
+    if via == "argv":
+        import contextlib
+        import io
+        from cnvlib import commands
+        out = io.StringIO()
+        try:
+            with contextlib.redirect_stdout(out):
+                a = commands.parse_args(args)
+                a.func(a)
+        except ValueError as e:
+            return _Done(1, out.getvalue(), f"ValueError: {e}")
+        except SystemExit as e:
+            return _Done(2, out.getvalue(), f"SystemExit: {e}")
+        return _Done(0, out.getvalue(), "")
     env = dict(os.environ)
     env["PYTHONDONTWRITEBYTECODE"] = "1"
     env["TMPDIR"] = tmp
@@ -418,6 +718,65 @@ def _cli(args, tmp):
     r = subprocess.run([sys.executable, "-c", boot] + args, capture_output=True, text=True,
                        timeout=600, env=env, cwd=tmp)
     return r
+
+
+def _cli_text(args, tmp, i, name):
+    """run the command writing to a file (-o) or, if the case says so, to standard output; (result, text written)"""
+    if (i.get("cli_opts") or {}).get("stdout"):
+        r = _cli(args, tmp, i["via"])
+        return r, r.stdout
+    out = os.path.join(tmp, name)
+    r = _cli(args + ["-o", out], tmp, i["via"])
+    return r, (open(out).read() if r.returncode == 0 else "")
+
+
+def _cli_common(i):
+    """--ploidy, sample sex, reference sex, PAR genome as the case spells them"""
+    opt = i.get("cli_opts") or {}
+    args = []
+    if not (opt.get("implicit") and i["ploidy"] == 2):
+        args += ["--ploidy", str(i["ploidy"])]
+    sex = opt.get("sex", "female" if i["female"] else "male")
+    if sex is not None:
+        args += [opt.get("sex_flag", "-x"), sex]
+    if i["hapX"]:
+        args.append(opt.get("hapx_flag", "-y"))
+    if i["par"]:
+        args += ["--diploid-parx-genome", i.get("par_f", i["par"])]
+    return args
+
+
+def _wrap_sex(i, path, payload):
+    """sex left off the command line: the model is given the sex guess_xx infers from the table as read"""
+    opt = i.get("cli_opts") or {}
+    if "sex" in opt and opt["sex"] is None:
+        from cnvlib.cmdutil import read_cna
+        g = read_cna(path).guess_xx(i["hapX"], i.get("par_f", i["par"]), verbose=False)
+        return {"__wrap__": True, "female_eff": bool(g) if g is not None else False, "out": payload}
+    return payload
+
+
+def _female_arg(i):
+    import numpy as np
+    rep = i.get("female_repr", "bool")
+    if rep == "np":
+        return np.bool_(i["female"])
+    if rep == "none" and not i["female"]:
+        return None  # what verify_sample_sex hands over when nothing was stated and nothing could be inferred
+    return i["female"]
+
+
+def _pre_calls(obj, i):
+    """the same object goes through other exporters first; the result asked for must not depend on that"""
+    from cnvlib import export
+    par, fem = i.get("par_f", i.get("par")), _female_arg(i) if "female" in i else None
+    for what in i.get("pre") or []:
+        if what == "vcf":
+            export.export_vcf(obj, i["ploidy"], i["hapX"], par, fem)
+        elif what.startswith("bed:"):
+            export.export_bed(obj, i["ploidy"], i["hapX"], par, fem, None, what[4:])
+        elif what == "nexus":
+            export.export_nexus_basic(obj)
 
 
 def _parse_vcf(body):
@@ -444,57 +803,111 @@ def _parse_vcf(body):
     return {"sample_col": head[9], "records": recs}
 
 
+def _strip_ci(parsed, i):
+    """with a .cnr (or ci_left / ci_right columns) every record also carries CIPOS and CIEND, after the seven
+    modelled keys; their values are outside the property and the model: checked for presence, then dropped"""
+    want = bool(i.get("cnr")) or bool(i.get("ci"))
+    for rec in parsed["records"]:
+        has = rec[7][-2:] == ["CIPOS", "CIEND"]
+        if want and not has:
+            raise HarnessAssumption("record without CIPOS/CIEND although confidence limits were supplied")
+        if has and want:
+            rec[7] = rec[7][:-2]
+    return parsed
+
+
+def _parse_bed(text):
+    rows = []
+    for l in text.split("\n"):
+        if l:
+            f = l.split("\t")
+            rows.append([f[0], int(f[1]), int(f[2]), f[3], int(f[4])])
+    return rows
+
+
 def _run_bed(i, tmp):
     from cnvlib import export
-    if i.get("via") == "cli":
+    if i.get("via"):
+        opt = i.get("cli_opts") or {}
         path = os.path.join(tmp, i["seg_id"] + ".cns")
-        _write_segfile(path, i["rows"], i["log2_f"], i["has_cn"], True)
-        out = os.path.join(tmp, "out.bed")
-        args = ["export", "bed", path, "--ploidy", str(i["ploidy"]), "-x", "female" if i["female"] else "male",
-                "--show", i["show"], "-o", out]
-        if i["hapX"]:
-            args.append("-y")
-        if i["par"]:
-            args += ["--diploid-parx-genome", i["par"]]
+        _write_segfile(path, i["rows"], i["log2_f"], i["has_cn"], i["has_probes"], i.get("extra"), i.get("colorder"))
+        files = [path]
+        if opt.get("co") is not None:
+            # a second sample on the same command line; its single segment (cn 99) is listed under every --show
+            co = os.path.join(tmp, "ZZ.cns")
+            _write_tab(co, ["chromosome", "start", "end", "gene", "log2", "probes", "cn"],
+                       [[i["rows"][0][0], 7, 77, "Q", 0.5, 3, 99]])
+            files = [co, path] if opt["co"] == 0 else [path, co]
+        args = ["export", "bed"] + files + _cli_common(i)
+        if not (opt.get("implicit") and i["show"] == "ploidy"):
+            args += ["--show", i["show"]]
         if i["label"] == "@genes":
             args.append("--label-genes")
         elif i["label"]:
             args += ["-i", i["label"]]
-        r = _cli(args, tmp)
+            if opt.get("label_genes_too"):
+                args.append("--label-genes")
+        r, text = _cli_text(args, tmp, i, "out.bed")
         if r.returncode != 0:
             raise RuntimeError("cli failed: " + r.stderr[-500:])
-        rows = []
-        for l in open(out).read().split("\n"):
-            if l:
-                f = l.split("\t")
-                rows.append([f[0], int(f[1]), int(f[2]), f[3], int(f[4])])
-        return rows
+        rows = _parse_bed(text)
+        if opt.get("co") is not None:
+            zz = [k for k, row in enumerate(rows) if row[3] == "ZZ"]
+            if zz != ([0] if opt["co"] == 0 else [len(rows) - 1]) or rows[zz[0]][:3] != [i["rows"][0][0], 7, 77] \
+                    or rows[zz[0]][4] != 99:
+                raise HarnessAssumption(f"the other sample's segment is not where it belongs: rows {zz} of {len(rows)}")
+            rows.pop(zz[0])
+        return _wrap_sex(i, path, rows)
     seg = _seg_cna(i, i["rows"], i["log2_f"], i["has_cn"], i["has_probes"], i["seg_id"])
-    t = export.export_bed(seg, i["ploidy"], i["hapX"], i["par"], i["female"], i["label"], i["show"])
+    _pre_calls(seg, i)
+    par, fem = i.get("par_f", i["par"]), _female_arg(i)
+    if i.get("argstyle") == "kw":
+        t = export.export_bed(segments=seg, ploidy=i["ploidy"], is_haploid_x_reference=i["hapX"], diploid_parx_genome=par,
+                              is_sample_female=fem, label=i["label"], show=i["show"])
+    else:
+        t = export.export_bed(seg, i["ploidy"], i["hapX"], par, fem, i["label"], i["show"])
     return [[str(a), int(b), int(c), str(d), int(e)] for a, b, c, d, e in
             zip(t["chromosome"], t["start"], t["end"], t["label"], t["ncopies"])]
 
 
 def _run_vcf(i, tmp):
     from cnvlib import export
-    if i.get("via") == "cli":
+    if i.get("via"):
         path = os.path.join(tmp, i["seg_id"] + ".cns")
-        _write_segfile(path, i["rows"], i["log2_f"], i["has_cn"], True)
-        out = os.path.join(tmp, "out.vcf")
-        args = ["export", "vcf", path, "--ploidy", str(i["ploidy"]), "-x", "female" if i["female"] else "male", "-o", out]
-        if i["hapX"]:
-            args.append("-y")
-        if i["par"]:
-            args += ["--diploid-parx-genome", i["par"]]
+        _write_segfile(path, i["rows"], i["log2_f"], i["has_cn"], True, i.get("extra"), i.get("colorder"), bool(i.get("ci")))
+        args = ["export", "vcf", path] + _cli_common(i)
+        if i.get("cnr"):
+            d = os.path.join(tmp, "bins")
+            os.makedirs(d)
+            cnr = os.path.join(d, i["seg_id"] + ".cnr")
+            _write_binfile(cnr, [b + ["-"] for b in i["cnr"]], [0.0] * len(i["cnr"]), ["depth", "weight"])
+            args += ["--cnr", cnr]
         if i["sample_id"]:
             args += ["-i", i["sample_id"]]
-        r = _cli(args, tmp)
+        r, text = _cli_text(args, tmp, i, "out.vcf")
         if r.returncode != 0:
             raise RuntimeError("cli failed: " + r.stderr[-500:])
-        return _parse_vcf(open(out).read())
+        return _wrap_sex(i, path, _strip_ci(_parse_vcf(text), i))
     seg = _seg_cna(i, i["rows"], i["log2_f"], i["has_cn"], i["has_probes"], i["seg_id"])
-    _header, body = export.export_vcf(seg, i["ploidy"], i["hapX"], i["par"], i["female"], i["sample_id"])
-    return _parse_vcf(body)
+    _pre_calls(seg, i)
+    par, fem = i.get("par_f", i["par"]), _female_arg(i)
+    cnarr = None
+    if i.get("cnr"):
+        cnarr = _bin_cna({}, [b + ["-"] for b in i["cnr"]], [0.0] * len(i["cnr"]), i["seg_id"])
+    style = i.get("argstyle")
+    if style == "kw":
+        kw = dict(segments=seg, ploidy=i["ploidy"], is_haploid_x_reference=i["hapX"], diploid_parx_genome=par,
+                  is_sample_female=fem, sample_id=i["sample_id"])
+        if cnarr is not None:
+            kw["cnarr"] = cnarr
+        _header, body = export.export_vcf(**kw)
+    elif style == "implicit" and i["sample_id"] is None and cnarr is None:
+        _header, body = export.export_vcf(seg, i["ploidy"], i["hapX"], par, fem)
+    elif cnarr is not None:
+        _header, body = export.export_vcf(seg, i["ploidy"], i["hapX"], par, fem, i["sample_id"], cnarr)
+    else:
+        _header, body = export.export_vcf(seg, i["ploidy"], i["hapX"], par, fem, i["sample_id"])
+    return _strip_ci(_parse_vcf(body), i)
 
 
 def _run_seg(i, tmp):
@@ -504,14 +917,15 @@ def _run_seg(i, tmp):
         d = os.path.join(tmp, str(k))
         os.makedirs(d)
         p = os.path.join(d, sm["id"] + ".cns")
-        _write_segfile(p, sm["rows"], sm["log2_f"], False, sm["has_probes"])
+        ex = sm.get("extra") or []
+        _write_segfile(p, sm["rows"], sm["log2_f"], "cn" in ex, sm["has_probes"], [c for c in ex if c != "cn"],
+                       "call" if ex else None)
         fnames.append(p)
-    if i.get("via") == "cli":
-        out = os.path.join(tmp, "out.seg")
-        r = _cli(["export", "seg"] + fnames + (["--enumerate-chroms"] if i["enumerate"] else []) + ["-o", out], tmp)
+    if i.get("via"):
+        r, text = _cli_text(["export", "seg"] + fnames + (["--enumerate-chroms"] if i["enumerate"] else []), tmp, i, "out.seg")
         if r.returncode != 0:
             raise RuntimeError("cli failed: " + r.stderr[-500:])
-        lines = [l for l in open(out).read().split("\n") if l]
+        lines = [l for l in text.split("\n") if l]
         head = lines[0].split("\t")
         rows = []
         for l in lines[1:]:
@@ -520,7 +934,15 @@ def _run_seg(i, tmp):
             rows.append([f["ID"], f["chrom"], int(f["loc.start"]), int(f["loc.end"]),
                          None if nm == "" else int(float(nm)), frac(float(f["seg.mean"]))])
         return rows
-    t = export.export_seg(fnames, chrom_ids=i["enumerate"])
+    if i.get("ftuple"):
+        fnames = tuple(fnames)
+    style = i.get("argstyle")
+    if style == "kw":
+        t = export.export_seg(sample_fnames=fnames, chrom_ids=i["enumerate"])
+    elif style == "implicit" and not i["enumerate"]:
+        t = export.export_seg(fnames)
+    else:
+        t = export.export_seg(fnames, i["enumerate"])
     rows = []
     for k in range(len(t)):
         nm = t["num.mark"].iat[k] if "num.mark" in t.columns else float("nan")
@@ -556,20 +978,21 @@ def _run_table(i, tmp):
         d = os.path.join(tmp, str(k))
         os.makedirs(d)
         p = os.path.join(d, sm["id"] + ".cnr")
-        _write_binfile(p, sm["bins"], sm["log2_f"])
+        _write_binfile(p, sm["bins"], sm["log2_f"], sm.get("extra"))
         fnames.append(p)
-    if i.get("via") == "cli":
-        out = os.path.join(tmp, "out.txt")
-        r = _cli(["export", i["fmt"]] + fnames + ["-o", out], tmp)
+    if i.get("via"):
+        r, text = _cli_text(["export", i["fmt"]] + fnames, tmp, i, "out.txt")
         if r.returncode != 0:
             if "Mismatched row coordinates" in r.stderr:
                 return {"error": "mismatch"}
             if "Duplicate sample ID" in r.stderr:
                 return {"error": "duplicate"}
             raise RuntimeError("cli failed: " + r.stderr[-500:])
-        header, rows = _typed_cells(i["fmt"], open(out).read())
+        header, rows = _typed_cells(i["fmt"], text)
         return {"error": None, "header": header, "rows": rows}
     sample_ids = list(map(core.fbase, fnames))
+    if i.get("ftuple"):
+        fnames = tuple(fnames)
     try:
         table = export.merge_samples(fnames)
     except ValueError as e:
@@ -585,22 +1008,23 @@ def _run_table(i, tmp):
 def _run_nexus(i, tmp):
     from cnvlib import export
     from cnvlib.cnary import CopyNumArray as CNA
-    if i.get("via") == "cli":
+    if i.get("via"):
         p = os.path.join(tmp, "S.cnr")
-        _write_binfile(p, i["bins"], i["log2_f"])
-        out = os.path.join(tmp, "out.txt")
-        r = _cli(["export", "nexus-basic", p, "-o", out], tmp)
+        _write_binfile(p, i["bins"], i["log2_f"], i.get("extra"))
+        r, text = _cli_text(["export", "nexus-basic", p], tmp, i, "out.txt")
         if r.returncode != 0:
             raise RuntimeError("cli failed: " + r.stderr[-500:])
-        lines = [l for l in open(out).read().split("\n") if l]
+        lines = [l for l in text.split("\n") if l]
         rows = []
         for l in lines[1:]:
             f = l.split("\t")
             rows.append([["s", f[0]], ["i", int(f[1])], ["i", int(f[2])], ["s", f[3]], ["q", frac(float(f[4]))], ["s", f[5]]])
         return rows
-    data = [(b[0], b[1], b[2], b[3], lg) for b, lg in zip(i["bins"], i["log2_f"])]
-    a = CNA.from_rows(data, columns=["chromosome", "start", "end", "gene", "log2"], meta_dict={"sample_id": "S"})
+    a = _bin_cna(i, i["bins"], i["log2_f"])
+    _pre_calls(a, i)
     t = export.export_nexus_basic(a)
+    if list(t.columns) != ["chromosome", "start", "end", "gene", "log2", "probe"]:
+        raise HarnessAssumption(f"nexus-basic columns {list(t.columns)}")
     cols = ["chromosome", "start", "end", "gene", "log2", "probe"]
     return [[_cell(t[c].iat[k]) for c in cols] for k in range(len(t))]
 
@@ -621,20 +1045,26 @@ def run_impl(case):
 
 def _strip(o):
     if isinstance(o, dict):
-        return {k: _strip(v) for k, v in o.items() if not k.endswith("_f") and k != "via"}
+        return {k: _strip(v) for k, v in o.items() if not k.endswith("_f") and k not in HARNESS_KEYS}
     if isinstance(o, list):
         return [_strip(x) for x in o]
     return o
 
 
+def _payload(impl):
+    return impl["out"] if isinstance(impl, dict) and impl.get("__wrap__") else impl
+
+
 def to_line(case, impl):
     line = {"op": case["op"], "in": _strip(case["in"])}
-    if case["in"].get("via") == "cli" and case["op"] == "export_bed":
+    if case["in"].get("via") and case["op"] == "export_bed":
         # the command line labels rows with the sample ID unless -i / --label-genes is given
         lab = case["in"]["label"]
         line["in"]["label"] = None if lab == "@genes" else (lab or case["in"]["seg_id"])
     if not (isinstance(impl, dict) and "__error__" in impl):
-        line["impl"] = impl
+        if isinstance(impl, dict) and impl.get("__wrap__"):
+            line["in"]["female"] = impl["female_eff"]  # sex not stated on the command line: the inferred one
+        line["impl"] = _payload(impl)
     return line
 
 
@@ -667,6 +1097,7 @@ def judge(case, impl, resp):
         return ["raises_" + impl["__error__"]], [], None
     if "error" in resp:
         return [], ["model error: " + resp["error"]], None
+    impl = _payload(impl)
     spec = list(resp.get("spec") or [])
     out = resp["out"]
     disagree = []
